@@ -179,6 +179,13 @@ def overlay(prog, rep):
         wrote = s.state.vals.get(f"{a}[{k}]")
         other_w = [x for x in s.state.vals if ("[" in x or "." in x) and x != f"{a}[{k}]"]
         rec = [c for c in s.calls if norm(c.func) == fi.name] + [c for c in _value_calls(s, fi.name)]
+        # the value is the user's value itself, not a conversion of it (float(b[k]), str(b[k]), a copy with another type)
+        from ..paths import inline_simple_locals as _isl
+
+        conv = [st_ for st_ in s.stmts if isinstance(st_, ast.Assign) and len(st_.targets) == 1 and norm(st_.targets[0]) == f"{a}[{k}]" and norm(_isl(st_.value, fi)) != f"{b}[{k}]"]
+        if conv and wrote == B:
+            rep.violation("OVERLAY", fi.short, f"value stored for a key of the user's file", f"`{norm(conv[0])[:70]}` stores a conversion of the user's value, not the value: the effective configuration no longer carries what the user wrote (e.g. an integer beyond 2**53 rounded by float(), true turned into 1.0)", fi.loc(conv[0]))
+            continue
         cons = f"path {sorted(f'{chr(43) if p else chr(45)}{t}' for t, p in s.opaque)}"
         if other_w:
             rep.violation("OVERLAY", fi.short, cons[:90], f"writes {other_w}", fi.loc(lp))
@@ -340,6 +347,7 @@ def check(prog, rep):
 
 
 VARIANTS = [
+    ("B user integers for float defaults are converted with float()", "aw_core/config.py", "            else:\n                a[key] = b[key]\n        else:", "            elif isinstance(a[key], float) and isinstance(b[key], int):\n                a[key] = float(b[key])\n            else:\n                a[key] = b[key]\n        else:", "OVERLAY"),
     ("B arrays present in both documents are merged position by position", "aw_core/config.py", "            elif a[key] == b[key]:\n                pass  # same leaf value\n", "            elif isinstance(a[key], list) and isinstance(b[key], list):\n                for i, item in enumerate(b[key]):\n                    if i < len(a[key]):\n                        a[key][i] = item\n                    else:\n                        a[key].append(item)\n            elif a[key] == b[key]:\n                pass  # same leaf value\n", "OVERLAY"),
     ("B write before the existence test", C, "    # Override defaults from existing config file\n    if os.path.isfile(config_file_path):\n        with open(config_file_path) as f:\n            config = f.read()\n        config_toml = tomlkit.parse(config)\n    else:", "    if not default_config_toml:\n        with open(config_file_path, \"w\") as f:\n            f.write(default_config)\n    if os.path.isfile(config_file_path):\n        with open(config_file_path) as f:\n            config = f.read()\n        config_toml = tomlkit.parse(config)\n    else:", "NO-CLOBBER"),
     ("B rewrites the user's file after loading", C, "    config = _merge(default_config_toml, config_toml)\n", "    config = _merge(default_config_toml, config_toml)\n    save_config_toml(appname, tomlkit.dumps(config))\n", "NO-CLOBBER"),
